@@ -25,6 +25,7 @@ import (
 	"fmt"
 	"os"
 	"path/filepath"
+	"runtime"
 	"sort"
 	"strconv"
 	"strings"
@@ -49,9 +50,15 @@ const (
 	c11OK    = 0
 	c11Err   = 1
 	c11Panic = 2
+	// outcomes of the stages that come before the device's own write (broker-stage monitor)
+	c11HashErr   = 3 // GetHash fails while the broker applies the audited-headers configuration for this device
+	c11HashPanic = 4
+	c11FmtErr    = 5 // the formatter fails inside the device
+	c11FmtPanic  = 6
+	c11SaltDown  = 7 // the device's salt is unavailable: GetHash fails if it is consulted, otherwise the formatter does
 )
 
-var c11OutcomeName = []string{"ok", "err", "panic"}
+var c11OutcomeName = []string{"ok", "err", "panic", "hash-err", "hash-panic", "format-err", "format-panic", "salt-down"}
 
 type c11Event struct {
 	Seq     int64  `json:"seq"`
@@ -98,6 +105,7 @@ type c11World struct {
 	devices map[string]*c11Device
 	reqN    int
 	tag     string
+	cur     string // id of the client request in flight
 
 	// atBackend, when set, is evaluated on the handler's goroutine at handler entry (device-fault monitor:
 	// "does any device hold the request entry right now?"); its answer is kept in the backend event
@@ -221,7 +229,15 @@ func (d *c11Device) log(ctx context.Context, phase string, in *logical.LogInput)
 	case c11Err:
 		d.w.add(c11Event{Kind: "audit", Dev: d.name, Phase: phase, Outcome: "err", ReqID: id})
 		return errors.New("verif C11: injected audit device failure")
+	case c11FmtErr, c11SaltDown:
+		d.w.add(c11Event{Kind: "audit", Dev: d.name, Phase: phase, Outcome: "format-err", ReqID: id})
+		return errors.New("verif C11: injected formatter failure (salt unavailable)")
+	case c11FmtPanic:
+		d.w.add(c11Event{Kind: "audit", Dev: d.name, Phase: phase, Outcome: "format-panic", ReqID: id})
+		panic("verif C11: injected formatter panic")
 	}
+	// c11HashErr / c11HashPanic reaching this point: the broker did not consult GetHash for this
+	// request (no HMAC-configured header in it), so nothing fails and the device works
 	var buf bytes.Buffer
 	var err error
 	if phase == "request" {
@@ -249,7 +265,41 @@ func (d *c11Device) LogTestMessage(context.Context, *logical.LogInput, map[strin
 	return nil
 }
 
+// c11BrokerPhase tells from the call stack which broker loop is consulting the device.
+func c11BrokerPhase() string {
+	var pcs [48]uintptr
+	n := runtime.Callers(2, pcs[:])
+	frames := runtime.CallersFrames(pcs[:n])
+	for {
+		f, more := frames.Next()
+		switch {
+		case strings.HasSuffix(f.Function, "(*AuditBroker).LogRequest"):
+			return "request"
+		case strings.HasSuffix(f.Function, "(*AuditBroker).LogResponse"):
+			return "response"
+		}
+		if !more {
+			return ""
+		}
+	}
+}
+
 func (d *c11Device) GetHash(ctx context.Context, data string) (string, error) {
+	d.w.mu.Lock()
+	scripted, id := len(d.w.script) > 0, d.w.cur
+	d.w.mu.Unlock()
+	if scripted {
+		if phase := c11BrokerPhase(); phase != "" {
+			switch d.w.outcome(d.name, phase) {
+			case c11HashErr, c11SaltDown:
+				d.w.add(c11Event{Kind: "audit", Dev: d.name, Phase: phase, Outcome: "hash-err", ReqID: id})
+				return "", errors.New("verif C11: injected GetHash failure (salt unavailable)")
+			case c11HashPanic:
+				d.w.add(c11Event{Kind: "audit", Dev: d.name, Phase: phase, Outcome: "hash-panic", ReqID: id})
+				panic("verif C11: injected GetHash panic")
+			}
+		}
+	}
 	s, err := d.Salt(ctx)
 	if err != nil {
 		return "", err
@@ -430,18 +480,24 @@ func c11Boot(t *testing.T, r *kit.Result, k int, withFile string) *c11World {
 	if got := core.auditBroker.Count(); got != k+map[bool]int{true: 1, false: 0}[withFile != ""] {
 		t.Fatalf("C11 setup: %d audit devices registered, want %d", got, k)
 	}
-	// recording proxies in front of the built-in backends
+	c11InstallProxies(t, w, core)
+	w.dropEvents()
+	return w
+}
+
+// c11InstallProxies puts recording proxies in front of the built-in backends of a core.
+func c11InstallProxies(t *testing.T, w *c11World, core *Core) {
 	for _, p := range []string{"sys/", "auth/token/", "cubbyhole/"} {
 		re, ok := core.router.Get(p)
 		if !ok || re.Backend == nil {
 			t.Fatalf("C11 setup: no route entry for %s", p)
 		}
 		re.Lock()
-		re.Backend = &c11Proxy{Backend: re.Backend, w: w, name: p}
+		if _, done := re.Backend.(*c11Proxy); !done {
+			re.Backend = &c11Proxy{Backend: re.Backend, w: w, name: p}
+		}
 		re.Unlock()
 	}
-	w.dropEvents()
-	return w
 }
 
 // ---------------------------------------------------------------- client
@@ -526,6 +582,9 @@ func (w *c11World) do(req *logical.Request, hdrSecret string, extraHdrs ...strin
 	id := fmt.Sprintf("vreq-%s-%d", w.tag, w.reqN)
 	w.mu.Unlock()
 	req.ID = id
+	w.mu.Lock()
+	w.cur = id
+	w.mu.Unlock()
 	if hdrSecret != "" {
 		req.Headers = map[string][]string{"X-Verif-Secret": {hdrSecret}, "X-Verif-Plain": {"plain-header-value"}, "X-Verif-Unlisted": {"unl" + hdrSecret}}
 		for i := 0; i+1 < len(extraHdrs); i += 2 {
